@@ -182,6 +182,9 @@ def rand_program(cirq, cg, sympy, rng, depth=0):
             if cirq.has_unitary(sub) and rng.random() < 0.3:
                 nreps = rng.choice([-1, -2])
                 op = cirq.CircuitOperation(sub.freeze(), repetitions=nreps, repetition_ids=[f'r{j}' for j in range(abs(nreps))] if rng.random() < 0.5 else None)
+            elif rng.random() < 0.35:
+                # explicit repetition ids, used as key scopes or not
+                op = cirq.CircuitOperation(sub.freeze(), repetitions=reps, repetition_ids=[f'i{j}' for j in range(reps)], use_repetition_ids=rng.choice([True, False]))
             if rng.random() < 0.3:
                 op = op.with_tags(cg.CalibrationTag('c'))
         else:
@@ -294,6 +297,9 @@ def check_programs(ctx, cirq, cg, sympy, n):
         cirq.Circuit(cirq.CircuitOperation(cirq.FrozenCircuit(cirq.X(gq))).with_tags(cg.CalibrationTag('c'))),
         cirq.Circuit(cirq.CircuitOperation(cirq.FrozenCircuit(cirq.X(gq) ** 0.5), repetitions=-2, repetition_ids=['a', 'b'])),
         cirq.Circuit(cirq.Moment(cirq.X(gq)).with_tags('first'), cirq.Moment(cirq.X(gq)).with_tags('second')),
+        cirq.Circuit(cirq.CircuitOperation(cirq.FrozenCircuit(cirq.X(gq), cirq.measure(gq, key='m')), repetitions=2, repetition_ids=['a', 'b'], use_repetition_ids=False)),
+        cirq.Circuit(cirq.CircuitOperation(cirq.FrozenCircuit(cirq.X(gq), cirq.measure(gq, key='m')), repetitions=2, repetition_ids=['a', 'b'], use_repetition_ids=True)),
+        cirq.Circuit(cirq.CircuitOperation(cirq.FrozenCircuit(cirq.X(gq), cirq.measure(gq, key='m')), repetitions=2, use_repetition_ids=False)),
         cirq.Circuit(cirq.depolarize(0.0).on(gq)),
         cirq.Circuit(cirq.measure(gq, cirq.GridQubit(0, 1), key='m'), cirq.X(gq).with_classical_controls(cirq.BitMaskKeyCondition('m', index=-1, target_value=2**24 + 1, equal_target=True, bitmask=2**24 + 1))),
         cirq.Circuit(cirq.Z(gq).with_tags('a', cg.PhysicalZTag()), (cirq.Z(gq) ** 0.5).with_tags(cg.PhysicalZTag(), 'b'), cirq.X(gq).with_tags('x', cg.CalibrationTag('t'), 'y')),
